@@ -54,5 +54,9 @@ record("ipc", iexe, "prog ipc\nA wait\nB signal\nA done\nB done\nend\n", "proc",
 wexe = vlib.build(c.dir, "drv_warnp", [os.path.join(vlib.HARNESS, f) for f in ("drv_warnp.c", "allocwrap.c")] + vlib.repo_srcs("util/warnp.c"),
                   wraps=["malloc", "calloc", "realloc", "free", "strdup", "syslog", "__syslog_chk", "vsyslog", "closelog"])
 record("warnp", wexe, "prog w\nname 2f782f79\nsyslog 1\nwarn 2 1 6d 0\nsyslog 0\nwarnp 0 3 70 5\nend\n", "util", "WarnpTrace", "WarnpTrace.cfg", ["set", "msg", "errno_after", 5])
+# readpass in a scripted environment (extra X03)
+from checks import x03
+rexe = vlib.build(c.dir, "drv_readpass", [os.path.join(vlib.HARNESS, "drv_readpass.c")] + vlib.repo_srcs("util/readpass.c", "util/warnp.c", "util/insecure_memzero.c"), wraps=x03.WRAPS)
+record("readpass", rexe, x03.prog(1, 1, 0, 1, 1, 1, 1, b"pw\npx\nqq\nqq\n", [(2, ["INT", "HUP"], "r")]), "util", "ReadpassTrace", "ReadpassTrace.cfg", ["drop", "sigrestore"])
 with open(os.path.join(OUT, "index.json"), "w") as f:
     json.dump(index, f, indent=1, sort_keys=True)
